@@ -18,6 +18,7 @@ PROP = {
              "or arrival of which not all are admitted, a registration while another arrival sits between its slot check and its registration, a shutdown with waiters, "
              "(real clock) a request expired by its TTL; distinct = canonical JSON of configuration + schedule"),
     "assumptions": [
+        "the gateway's log level (LOG_LEVEL: off in three cases of eight, else error / info / debug / trace; what is logged is thrown away, what a log statement does to build its arguments happens) is a generated part of every case of TestQueueSchedules: no answer may depend on it; a failing case reports its level",
         "one arrival in six of the virtual-clock schedules is a retried call: it carries the transaction id of an earlier request of the case that was allowed, has returned and whose clean-up has finished (the interceptors re-send x-lunar-req-id); it queues like any other arrival",
         "real-clock TTL unit: in three cases of five the process clock gains 60-250 ms per second on the runtime timers (the processing tick reads the clock, the TTL watcher waits on a runtime timer: a loaded machine fires timers late); the statement's bound (one verdict by TTL plus slack) is judged in real time as before",
         "in-memory queue and state only (the Redis-backed queue of the pro build is absent); one queue processor and one quota (no group_by_header, no parent quota) per case",
